@@ -353,7 +353,7 @@ def main(tier, seed):
         for unit_kw, f in (({}, 1.0), ({"loading_unit": "mol"}, 1e-3)):
             lim = tuple(None if v is None else v * f for v in lims)
             got = [float(v) for v in iso.loading(limits=lim, **unit_kw)]
-            if not numpy.allclose(got, [w * f for w in want], rtol=1e-12, atol=0) or len(got) != len(want):
+            if len(got) != len(want) or not numpy.allclose(got, [w * f for w in want], rtol=1e-12, atol=0):
                 run.violation({"site": "p.loading selection", "observed": "limits on data with negative values do not select exactly the points inside them",
                                "lower_limit_open": lims[0] is None, "upper_limit_open": lims[1] is None}, {"loadings": negl, "limits": lim, "returned": got, "expected": want})
     run.set(selection_sequences=len(sel_recs))
